@@ -67,6 +67,12 @@ func noisy(tag string) int {
 const CrossMid = `print("mid", x, y, t, s, u, n, g, len(v), len(w))
 `
 
+// CrossPre is a dump of the state placed BEFORE the context in two program variants: executed ("live": every
+// facility the body uses has an earlier occurrence that ran) or inside a branch that is never taken ("dead": an
+// earlier occurrence in the text that did not run).
+const CrossPre = `print("pre", x, y, t, s, u, n, g, len(v), len(w), len(z), len(s), len(u), v[0], v[len(v) - 1], w[0], z[0], s[0:1], u[0:])
+`
+
 const CrossEnd = `print("end", x, y, t, s, u, n, g, len(v), len(w))
 for vi, ve := range v {
 	print("v", vi, ve)
